@@ -4,7 +4,7 @@
 From Coq Require Import List NArith ZArith Bool.
 Import ListNotations.
 Require Import FlexV.Regex FlexV.SpecAuto FlexV.Lockstep FlexV.Pat FlexV.Tables FlexV.Scan
-               FlexV.C01Proofs FlexV.Tokenize.
+               FlexV.C01Proofs FlexV.Tokenize FlexV.NfaSim FlexV.NfaProofs.
 
 (** The executable matcher used as oracle decides the denotation. *)
 Theorem C01_matcher_decides : forall r w, matchb r w = true <-> Matches r w.
@@ -45,6 +45,40 @@ Theorem C01_validator_sound : forall p sc toks bol w,
   validate p sc bol w toks = true -> DocTok p sc bol w toks.
 Proof. exact validate_sound. Qed.
 Print Assumptions C01_validator_sound.
+
+(** ** The NFA of nfa.c / parse.y and the subset construction of dfa.c
+    ([flex -T] prints the NFA; NfaSim.v gives it its path semantics). *)
+
+(** Determinization: the bit set the subset simulation holds after [w] is
+    exactly the set of NFA states reachable by [w] from the start state. *)
+Theorem C01_subset_construction_is_exact : forall a w X0 X,
+  nstart a = Some X0 -> nrun a w X0 = Some X ->
+  forall q, N.testbit X q = true <-> Path a (n_start a) w q.
+Proof. exact subset_simulation_exact. Qed.
+Print Assumptions C01_subset_construction_is_exact.
+
+(** The accepting number kept for a DFA state (the least one) is the first rule
+    the NFA accepts. *)
+Theorem C01_dfa_state_accepts_first_nfa_rule : forall a w X0 X,
+  nstart a = Some X0 -> nrun a w X0 = Some X ->
+  (nacc a X = 0%N /\ forall r, ~ Accepts a w r) \/
+  (Accepts a w (nacc a X) /\ forall r, Accepts a w r -> (nacc a X <= r)%N).
+Proof. exact nacc_is_the_first_accepted_rule. Qed.
+Print Assumptions C01_dfa_state_accepts_first_nfa_rule.
+
+(** Once the lock-step check has passed on the NFA flex printed, then after
+    EVERY word the first rule that NFA accepts is the first rule whose pattern
+    matches the word, as the manual defines the pattern language. *)
+Theorem C01_nfa_accepts_the_documented_language : forall a al m s0,
+  (forall x, In x s0 -> fst x <> 0%N) ->
+  check_view (nview a) al m s0 (v_start (nview a) 0%Z false) = true ->
+  forall w, Forall (fun b => In b al) w ->
+    exists X, (forall q, N.testbit X q = true <-> Path a (n_start a) w q) /\
+      (((forall r, ~ Accepts a w r) /\ (forall r, ~ rule_matches s0 r w)) \/
+       (exists r, Accepts a w r /\ (forall r', Accepts a w r' -> (r <= r')%N) /\
+                  rule_matches s0 r w /\ (forall r', rule_matches s0 r' w -> (r <= r')%N))).
+Proof. exact nfa_first_rule_is_documented. Qed.
+Print Assumptions C01_nfa_accepts_the_documented_language.
 
 (** Non-vacuity: a concrete program, tables-free instance of the premises. *)
 Example C01_example_selected :
